@@ -59,7 +59,17 @@ def theorem_status(prop, build_res):
         if dep_fail:
             # locate the lemma that broke in a Proofs/ file from the make output, and the theorem that uses it
             mk = build_res.get('make_out', '')
-            for fm in re.finditer(r'File "\./(Proofs/\w+\.v)", line (\d+)', mk):
+            # the theorems that depend on the import that failed come AFTER it in the Props file
+            after = [name for name, ln in thms if ln > line]
+            if after:
+                failing = after[0]
+            mm = re.search(r'(?:logical path|library|Compiled library)\s+([\w.]+)', out)
+            wantmod = mm.group(1).split('.')[-1] if mm else None
+            cands = list(re.finditer(r'File "\./(Proofs/\w+\.v)", line (\d+)', mk))
+            # prefer the Proofs file that IS the module that failed to load, then files this Props file names
+            cands.sort(key=lambda fm: (0 if wantmod and fm.group(1).endswith('/%s.v' % wantmod) else
+                                       1 if re.search(r'\b%s\b' % re.escape(os.path.basename(fm.group(1))[:-2]), src) else 2))
+            for fm in cands:
                 pf, pl = fm.group(1), int(fm.group(2))
                 try:
                     psrc = open(os.path.join(COQ, pf)).read()
